@@ -105,6 +105,10 @@ func (c *c16) Setup(w *core.Worker) error {
 
 func (c *c16) CrashKey(tail string) (string, bool) {
 	switch {
+	case strings.Contains(tail, "CASE-WATCHDOG "):
+		// a case that does not end within the case watchdog (5 minutes; a case takes seconds) hangs on the locks of the
+		// transaction manager / datastore: the deadlock clause of the statement
+		return "C16/deadlock/case-does-not-end", true
 	case strings.Contains(tail, "close of closed channel"):
 		return "C16/panic-close-of-closed-channel", true
 	case strings.Contains(tail, "panic:"), strings.Contains(tail, "fatal error:"):
@@ -161,7 +165,15 @@ func errClass(err error) string {
 // runSchedule executes ops under the choice vector on a fresh datastore.
 func (c *c16) runSchedule(ops []string, choices []int, res *core.CaseResult) (*c16Outcome, *sched.Result, []sched.Event) {
 	ds := c.env.NewDS(fixture.DSOpts{})
-	defer ds.Close()
+	stuck := false
+	defer func() {
+		if stuck {
+			// the operations hold the locks of the datastore for ever: do not touch it again (Stop() would block as well)
+			ds.Abandon()
+			return
+		}
+		ds.Close()
+	}()
 	ctx := context.Background()
 	mk := func(owner, path, val string, prio int32) []*types.TransactionIntent {
 		req := &sdcpb.TransactionIntent{Intent: owner, Priority: prio, Update: []*sdcpb.Update{{Path: model.Parse(path).ToPb(), Value: model.MkTv(val)}}}
@@ -269,6 +281,8 @@ func (c *c16) runSchedule(ops []string, choices []int, res *core.CaseResult) (*c
 		buf := make([]byte, 1<<16)
 		n := runtime.Stack(buf, true)
 		out.panics = append(out.panics, "STUCK\n"+string(buf[:n]))
+		stuck = true
+		return out, sr, s.Events
 	}
 	// quiescence: wait (bounded) until transaction A is resolved or clearly stays open
 	if withExpiry {
